@@ -233,7 +233,7 @@ impl CheckDef for Sp {
     type Case = Case;
     const NAME: &'static str = "sp";
     fn strategy(tier: Tier) -> BoxedStrategy<Case> {
-        rxgen::strategy(RxGen { hostile: false, max_steps: tier.pick(50, 120), with_writes: true, long_idle: true })
+        rxgen::strategy(RxGen { early_shutdown: false, hostile: false, max_steps: tier.pick(50, 120), with_writes: true, long_idle: true })
             .prop_map(|mut sp| {
                 sp.sock.inactivity_ms = 3_600_000; // the inactivity limit is not what this check is about
                 Case { sp }
